@@ -39,7 +39,8 @@ func (p *parser) parseRangeExpr() (e LogRangeExpr, err error) {
 		if err != nil {
 			return err
 		}
-		if t := p.peek(); t.Type == lexer.Unwrap {
+		// Pipeline parser stops at "|" only if "unwrap" follows.
+		if t := p.peek(); t.Type == lexer.Pipe {
 			e.Unwrap, err = p.parseUnwrapExpr()
 			if err != nil {
 				return err
@@ -71,6 +72,9 @@ func (p *parser) parseRangeExpr() (e LogRangeExpr, err error) {
 
 func (p *parser) parseUnwrapExpr() (ue *UnwrapExpr, err error) {
 	ue = new(UnwrapExpr)
+	if err := p.consume(lexer.Pipe); err != nil {
+		return nil, err
+	}
 	if err := p.consume(lexer.Unwrap); err != nil {
 		return nil, err
 	}
